@@ -553,7 +553,7 @@ def rec_expr(rng, nm, n):
     if nm in ("tflex", "rflex"):
         return mk(nm, ECHO, [n])
     if nm == "eft":
-        return ("eft", ECHO, mk("ema", ECHO, [rng.randint(1, 4)]), n)
+        return ("eft", ECHO, gen.gen_ma(rng), n)   # any moving average, incl. ones that overshoot (SuperSmoother, LaguerreFilter)
     return mk(nm, ECHO, [n])
 
 
@@ -604,6 +604,13 @@ def jobs_C09(rng, tier):
                 xs = [F(rng.randint(-1024, 1024), 1024) * int(B) for _ in range(L)]
                 cap = dict(tflex=20, rflex=20, lagrsi=2, eft=6).get(nm, 1e3)
                 js.append(Relation("bounded", e, [xs], dict(B=B, cap=cap / (B if nm in ("tflex", "rflex", "lagrsi", "eft") else 1), growth=nm not in ("tflex", "rflex", "lagrsi", "eft")), mode="f"))
+                # a bounded random walk with runs of new highs / lows (what makes an overshooting smoother inside a normaliser leave
+                # [-1, 1]: wave-5 seeds C09e, C15e), same bound
+                w, walk = 0, []
+                for _ in range(min(L, 3000)):
+                    w = max(-1024, min(1024, w + rng.choice([-1, 1]) * rng.randint(0, 64) * rng.choice([1, 1, 1, 4])))
+                    walk.append(F(w, 1024) * int(B))
+                js.append(Relation("bounded", e, [walk], dict(B=B, cap=cap / (B if nm in ("tflex", "rflex", "lagrsi", "eft") else 1), growth=nm not in ("tflex", "rflex", "lagrsi", "eft")), mode="f"))
                 # common tail
                 lag = max(60 * neff, 900) if nm in ("tflex", "rflex") else max(60 * neff, 400)
                 merge = rng.randint(5, 40)
@@ -667,6 +674,24 @@ def jobs_C10(rng, tier):
             xs = [F(2), F(-2), F(0), F(0), F(4), F(-4), F(1), F(0), F(3)] + gen.stream(rng, "zeros", 12)
             ys = gen.stream(rng, "ints", len(xs))
             js.append(Relation("linear", e, [xs, ys, [x - y for x, y in zip(xs, ys)]], dict(a=F(1), b=F(-1))))
+    # a chain of linear views is a linear view, and a low-pass over a low-pass still maps a constant to the constant from its first
+    # output — also when the inner view has a warm-up (wave-5 seed C10e: Ema counted update() calls, so over Sma(5) it skipped
+    # its first-value seeding and started from zero)
+    for _ in range(R):
+        a_, b_ = rng.choice(LIN_VIEWS), rng.choice(LIN_VIEWS)
+        inner = rec_expr(rng, a_, rng.randint(2, 6)) if a_ in ("lagf", "roof", "cc") else mk(a_, ECHO, [rng.randint(2, 6)])
+        outer0 = rec_expr(rng, b_, rng.randint(1, 6)) if b_ in ("lagf", "roof", "cc") else mk(b_, ECHO, [rng.randint(1, 6)])
+        e = (outer0[0], inner) + tuple(outer0[2:])
+        L = 30
+        xs, ys = gen.gen_stream(rng, L, 4)[1], gen.gen_stream(rng, L, 4)[1]
+        a, b = F(rng.choice([-3, -1, 1, 2, 5]), rng.choice([1, 2, 4])), F(rng.choice([-2, -1, 1, 3]), rng.choice([1, 2]))
+        js.append(Relation("linear", e, [xs, ys, [a * x + b * y for x, y in zip(xs, ys)]], dict(a=a, b=b)))
+        lp = ["sma", "ema", "alma", "lagf"]
+        i2, o2 = rng.choice(lp), rng.choice(lp)
+        inner2 = rec_expr(rng, "lagf", 1) if i2 == "lagf" else mk(i2, ECHO, [rng.randint(2, 7)])
+        outer2 = rec_expr(rng, "lagf", 1) if o2 == "lagf" else mk(o2, ECHO, [rng.randint(1, 7)])
+        c = F(rng.choice([-7, -2, 1, 3, 10, 13]), 4)
+        js.append(Relation("const", (outer2[0], inner2) + tuple(outer2[2:]), [[c] * 40], dict(tol=1e-12) if "alma" in (i2, o2) else {}))
     # DC behaviour
     for _ in range(R):
         c = F(rng.choice([-7, -2, 1, 3, 10]), 2)
